@@ -480,7 +480,7 @@ PROPS["C19"] = dict(
         "fixed UDP ports 61300..61900 (by shard) are assumed free",
     ],
     jobs=lambda tier: [
-        seeded("bind", "e2e", "^TestC19$", 60 if tier == "quick" else 1500, 16, timeout=900 if tier == "quick" else 3400),
+        seeded("bind", "e2e", "^TestC19$", 60 if tier == "quick" else 500, 16, timeout=900 if tier == "quick" else 3400),
     ],
 )
 
